@@ -43,6 +43,7 @@ def hook(w, label):
     # Derived from the ordered log of the virtual socket layer (not from the node's tables).
     by_cid = {c.remote.cid: c for c in w.conns}
     live: dict = {}
+    overlap_closed: dict = {}
     for (t, kind, cid, data) in w.net.log:
         if kind == "connect":
             ip = data[0]
@@ -53,16 +54,36 @@ def hook(w, label):
             if name:
                 live.setdefault(name, set()).add(cid)
         elif kind == "close" and cid is not None:
-            for sset in live.values():
+            for name, sset in live.items():
+                if cid in sset and len(sset) > 1:
+                    overlap_closed.setdefault(name, set()).add(cid)
                 sset.discard(cid)
         for name, sset in live.items():
             if len(sset) > 1:
                 _collector["simultaneous"].add(name)
+    # connections that Peer.connection has ever referenced (observed at quiescent points)
+    ever = _collector.setdefault("ever_referenced", set())
+    for peer in w.node.peers.values():
+        if peer.connection is not None:
+            ever.add(peer.connection.ident)
+    survivor_kind = {}
+    for name in _collector["simultaneous"]:
+        peer = w.node.peers.get(name)
+        if peer is None or peer.connection is not None:
+            continue
+        surv = [ident for ident, nc in w.node.connections.items() if name in (nc.node_name, nc.host_identity)]
+        if surv:
+            # the known hole leaves a connection unreferenced that was never assigned to the peer
+            survivor_kind[name] = "never-referenced-survivor" if not (set(surv) & ever) else "previously-referenced-survivor"
     for sig, detail in viol:
         peer_name = detail.split(":")[0].split(" ")[0].split(".connection")[0]
         tag = ""
-        if any(n in detail for n in _collector["simultaneous"]):
+        hit = [n for n in _collector["simultaneous"] if n in detail]
+        if hit:
             tag = "/after-simultaneous-connections"
+            if sig == "live-connection-unreferenced" and hit[0] in survivor_kind:
+                # the known hole leaves a connection unreferenced that Peer.connection never pointed at
+                tag += "/" + survivor_kind[hit[0]]
         _collector["v"].append((f"C13/{sig}{tag}", f"[{label} @+{w.k.now - W.sk.START_TIME:g}] {detail}"))
     live = [c for c in w.node.connections.values()]
     if live and any(cc.node_closed for cc in w.conns):
@@ -74,6 +95,7 @@ def with_monitor(fn):
     _collector["v"] = []
     _collector["removed_while_live"] = False
     _collector["simultaneous"] = set()
+    _collector["ever_referenced"] = set()
     W.STEP_HOOKS.append(hook)
     try:
         out = fn()
